@@ -280,10 +280,29 @@ class FencedCodeBlockMarkdownToken(LeafMarkdownToken):
         token_parts.append("<pre><code")
         if start_fence_token.extracted_text:
             token_parts.extend(
-                [' class="language-', start_fence_token.extracted_text, '"']
+                [
+                    ' class="language-',
+                    FencedCodeBlockMarkdownToken.__escape_for_attribute(
+                        start_fence_token.extracted_text
+                    ),
+                    '"',
+                ]
             )
         token_parts.append(">")
         return "".join(token_parts)
+
+    @staticmethod
+    def __escape_for_attribute(text_to_escape: str) -> str:
+        """
+        The info string ends up inside of a double-quoted HTML attribute, so the
+        characters that would end or corrupt that attribute must be escaped.
+        """
+        return (
+            text_to_escape.replace("&", "&amp;")
+            .replace("<", "&lt;")
+            .replace(">", "&gt;")
+            .replace('"', "&quot;")
+        )
 
     @classmethod
     def __handle_end_fenced_code_block_token(
@@ -307,7 +326,9 @@ class FencedCodeBlockMarkdownToken(LeafMarkdownToken):
             inner_tag_parts.extend(
                 [
                     ' class="language-',
-                    fenced_token.extracted_text,
+                    FencedCodeBlockMarkdownToken.__escape_for_attribute(
+                        fenced_token.extracted_text
+                    ),
                     '"',
                 ]
             )
